@@ -47,6 +47,9 @@ Fixpoint find_let (name : string) (lets : list let_expr) : option let_value :=
 
 Section Spec.
 Variable re : re_oracle.
+(* which literal values of `let` variables the reading covers: everything in the monitor (CheckSpec.v); the refinement
+   theorem (Proofs/RefineProps.v) restricts it to the values it can speak about, the rest is "not covered" *)
+Variable lit_ok : pv -> bool.
 Variable prog : rules_file.
 Variable doc : pv.
 
@@ -304,7 +307,7 @@ Fixpoint resolve (env : senv) (name : string) {struct env} : sres (list sval) :=
       | O => resolve outer name
       | S O =>
           match find_let name lets with
-          | Some (LValue lit) => SOk [SV true lit]
+          | Some (LValue lit) => if lit_ok lit then SOk [SV true lit] else SOut
           | Some (LAccess aq) =>
               res <~ sv_query r env (aq_query aq) ;;
               SOk (if aq_all aq then res else filter not_miss res)
